@@ -19,6 +19,13 @@ theorem C19_romfs_walk (e : Romfs.Env) (fuel : Nat) :
     (∀ off acc c out c', Romfs.Bnd e c → Romfs.fileLoop e fuel off acc c = .ok (out, c') → Romfs.Bnd e c') :=
   Romfs.walk_bounded e fuel
 
+/-- ... and those caps are at most `len(file) / 0x18` and `len(file) / 0x20`: they are counted from the table bytes actually
+    read, so a header that claims a 4 GiB table in a 300-byte file does not buy 134 million loop iterations -/
+theorem C19_romfs_caps (lower : Romfs.Str → Romfs.Str) (ci : Bool) (file : Bytes) (base dmo dms fmo fms : Nat) :
+    (Romfs.mkEnv lower ci file base dmo dms fmo fms).maxDirs * 0x18 ≤ file.length ∧
+    (Romfs.mkEnv lower ci file base dmo dms fmo fms).maxFiles * 0x20 ≤ file.length :=
+  Romfs.mkEnv_caps lower ci file base dmo dms fmo fms
+
 /-- LZSS: the decoder's `while` loop runs at most `ptr_in - comp_start` (≤ the input length) times -/
 theorem C19_lzss_terminates (cs de : Nat) (f : Nat) (s : Lzss.St) (h : s.pin - cs ≤ f) (k : Nat) :
     Lzss.outer cs de (f + k) s = Lzss.outer cs de f s := Lzss.outer_fuel cs de f s h k
